@@ -13,6 +13,7 @@ import (
 	"sort"
 	"strings"
 	"sync"
+	"sync/atomic"
 	"time"
 	"unicode/utf8"
 
@@ -42,7 +43,17 @@ type Shared struct {
 	Seed       int
 	Trace      bool
 	HarnessFiles []string
+	validations  int64
 }
+
+// TrackFuncs switches per-function instruction accounting on.
+func (sh *Shared) TrackFuncs(on bool) { sh.trackFuncs = on }
+
+func (sh *Shared) noteValidation() { atomic.AddInt64(&sh.validations, 1) }
+
+// Validations returns how many concrete encoder calls were cross-checked
+// against the host's real encoding/asn1 / encoding/json.
+func (sh *Shared) Validations() int64 { return atomic.LoadInt64(&sh.validations) }
 
 // Load type-checks and builds SSA for /repo with the harness overlay.
 func Load(repoDir, harnessDir string) (*Shared, error) {
@@ -240,6 +251,20 @@ func (sh *Shared) Run(pkgPath, fnName string, workers int, maxPaths int) (*Stats
 	p.cond = sync.NewCond(&p.mu)
 	p.work = append(p.work, nil)
 	start := time.Now()
+	if os.Getenv("GOSYM_PROGRESS") != "" {
+		go func() {
+			for {
+				time.Sleep(5 * time.Second)
+				p.mu.Lock()
+				fmt.Fprintf(os.Stderr, "[progress] %.0fs paths=%d queued=%d active=%d outcomes=%v\n", time.Since(start).Seconds(), st.Paths, len(p.work), p.active, st.ByOutcome)
+				done := p.stop || (p.active == 0 && len(p.work) == 0)
+				p.mu.Unlock()
+				if done {
+					return
+				}
+			}
+		}()
+	}
 	var wg sync.WaitGroup
 	var emu sync.Mutex
 	var firstErr error
